@@ -212,6 +212,40 @@ CODEC_ASSUME = [
 ]
 
 
+def shape_cases():
+    """Hand-written type shapes that neither the enumerated universe nor the random generator reaches reliably (each found by a seeded change):
+    pointer-shaped values below the top level (what Go stores directly in an interface word: Marshal by value gets the pointer itself), and one
+    slice type used with and without the proto tag in one struct (both orders), so that a codec cached for one position can be met at the other."""
+    I = lambda n: {"neg": n < 0, "mag": ([abs(n)] if abs(n) < 128 and n != 0 else ([] if n == 0 else [abs(n) % 128, abs(n) // 128]))}
+    S = lambda s: list(s.encode())
+    fd = lambda name, i, t, opt="": {"i": i, "n": name, "gn": name, "enc": True, "opt": opt, "tag": "", "t": t}
+    st = lambda fs: {"k": "struct", "name": "", "f": fs}
+    INT, STR = {"k": "int", "w": 64, "g": "int"}, {"k": "string"}
+    ptr = lambda t: {"k": "ptr", "e": t}
+    nilp, P = {"nil": True, "v": []}, (lambda v: {"nil": False, "v": v})
+    sl = lambda es: {"nil": es is None, "e": es or []}
+    out = []
+    T1 = st([fd("L", 1, st([fd("P", 1, ptr(INT))]))])
+    for v in (nilp, P(I(0)), P(I(7))):
+        out.append((T1, [[v]]))
+    T2 = st([fd("L", 1, st([fd("M", 1, {"k": "map", "key": STR, "val": INT})]))])
+    for v in ({"nil": True, "m": []}, {"nil": False, "m": []}, {"nil": False, "m": [[S("k"), I(1)]]}):
+        out.append((T2, [[v]]))
+    T3 = st([fd("A", 1, st([fd("B", 1, st([fd("P", 1, ptr(STR))]))]))])
+    for v in (nilp, P(S("")), P(S("xy"))):
+        out.append((T3, [[[v]]]))
+    SS = {"k": "slice", "e": STR}
+    for (a, b) in (("", "proto"), ("proto", "")):
+        T4 = st([fd("A", 1, SS, a), fd("B", 2, SS, b), fd("Z", 3, INT)])
+        for v in ([sl(None), sl(None), I(0)], [sl([S("x"), S("")]), sl([S("y"), S("zz")]), I(5)]):
+            out.append((T4, v))
+    cases = []
+    for cfgname in ("default", "pt", "pa", "both"):
+        for (T, v) in out:
+            cases.append({"ev": "codec", "T": T, "v": v, "cfgname": cfgname, "u": ["shape"]})
+    return cases
+
+
 def codec_family(ctx, n_quick, n_thorough, mc_cfgs_quick=("default",), extra_cov=None, rnd_cfg="mix"):
     ctx.build()
     cfgs = list(mc_cfgs_quick) if ctx.quick else ["default", "pt", "pa", "both"]
@@ -226,6 +260,7 @@ def codec_family(ctx, n_quick, n_thorough, mc_cfgs_quick=("default",), extra_cov
         cases += c2
         st = {"distinct": st["distinct"] + st2["distinct"]}
     log("design check MCCodec: %d states, %d cases emitted" % (st["distinct"], len(cases)))
+    cases += shape_cases()
     p1 = os.path.join(ctx.work, "mc_cases.ndjson")
     fam_codec.write_cases(cases, p1, 0)
     p2 = fam_codec.gen_random(ctx.pvh, ctx.work, n_quick if ctx.quick else n_thorough, ctx.seed, cfg=rnd_cfg)
